@@ -8,7 +8,7 @@ CONSTANTS
   Spots = {1,2,4}
   Vars = {1,4}
   Spots2 = {1}
-  Configs <- Combos1
+  Configs <- Combos1c
   EmitMod = 1
   EmitRes = 0
 INVARIANT HedgeIsRef
